@@ -122,9 +122,23 @@ def execute(sc):
                             bad_key = True
                 exp = {tuple(x): want(x) for x in gen.all_strings(ab["V"], n)
                        if not mode.is_zero(want(x))}
-                if bad_key or set(got) != set(exp):
-                    miss = sorted(set(exp) - set(got))[:3]
-                    extra = sorted(set(got) - set(exp))[:3]
+                # Support: exact in Boolean / Poly / MaxPlus / Log.  In the modes whose
+                # fixed points carry an ABSOLUTE tolerance (agenda tol=1e-12 on null
+                # weights: Float, Real, Expectation, MaxTimes) a string whose weight is
+                # below 1e-9 may legitimately be dropped (or kept) - same tolerance as
+                # for the values themselves.
+                if mode.name in ("float", "real", "expect", "maxtimes"):
+                    tiny = lambda v: mode.close(v, mode.zero, typed=False)  # noqa
+                    miss_all = [k for k in set(exp) - set(got) if not tiny(exp[k])]
+                    extra_all = [k for k in set(got) - set(exp) if not tiny(got[k])]
+                    exp = {k: v for k, v in exp.items() if k in got}
+                    got = {k: v for k, v in got.items() if k in exp}
+                else:
+                    miss_all = list(set(exp) - set(got))
+                    extra_all = list(set(got) - set(exp))
+                if bad_key or miss_all or extra_all:
+                    miss = sorted(miss_all)[:3]
+                    extra = sorted(extra_all)[:3]
                     sig2 = dict(sig, missing_empty=(() in miss))
                     out.violation("materialize:support", sig=sig2, n=n,
                                   missing=[list(m) for m in miss], extra=[list(m) for m in extra],
